@@ -37,7 +37,6 @@ TLayout == /\ Is("Layout") /\ UNCHANGED <<lay, bits, cfg, bin, nrm, gen, act>>
            /\ Soft("GroupsConsistent", GroupsConsistent(L), IF BadGroups = {} THEN 0 ELSE CHOOSE g \in BadGroups : \A x \in BadGroups : g <= x)
            /\ Soft("NoOverlap", NoOverlap(L), IF L.ovl = <<>> THEN 0 ELSE L.ovl[1])
            /\ Soft("Resolvable", Resolvable(L), 0)
-           /\ Soft("EnumNamesUnique", EnumNamesUnique(L), IF L.dupenum = <<>> THEN 0 ELSE L.dupenum[1])
            /\ Soft("FieldNamesUnique", FieldNamesUnique(L), IF L.dupfield = <<>> THEN 0 ELSE L.dupfield[1])
            /\ Soft("FieldsCover", FieldsCover(L), IF L.uncovered = <<>> THEN 0 ELSE L.uncovered[1])
            /\ Adv
